@@ -95,3 +95,60 @@ Lemma exw_pdr_runs :
 Proof.
   split; [eexists; vm_compute; reflexivity|]. vm_compute. repeat split; reflexivity.
 Qed.
+
+(** ** a system whose constraints become unsatisfiable (for the C02 theorems about [check_constraints])
+
+    state c:2 init 0 next c + 1; constraint not (c == 2); bad state c == [b].  Executions have at most one
+    step (c = 0, 1); at step 2 the constraints are contradictory.  With b = 3 no bad state is ever reached:
+    [check_constraints = false] answers Success, [check_constraints = true] trips the assert_eq! at step 2.
+    With b = 1 the counterexample of one step is reported with and without [check_constraints]. *)
+Definition exp_sys (b : N) : sys :=
+  {| s_inputs := [];
+     s_states := [ {| st_sym := exw_c; st_init := Some (BVLiteral 2 0);
+                      st_next := Some (BVAdd exw_c (BVLiteral 2 1) 2) |} ];
+     s_outputs := [];
+     s_bads := [BVEqual exw_c (BVLiteral 2 b)];
+     s_constraints := [BVNot (BVEqual exw_c (BVLiteral 2 2)) 1] |}.
+
+Definition exp_nm (e : expr) : string :=
+  match e with
+  | BVSymbol n _ => n
+  | BVAdd _ _ _ => "__add"
+  | BVNot _ _ => "__not"
+  | BVEqual _ (BVLiteral _ 2) => "__eq2"
+  | BVEqual _ _ => "__eqb"
+  | _ => "__other"
+  end.
+
+Definition exp_signals_ok (b : N) (k_max : nat) : bool :=
+  forallb (fun k => match signals_at (enc_new (exp_sys b) exp_nm) (s_constraints (exp_sys b)) k,
+                          signals_at (enc_new (exp_sys b) exp_nm) (s_bads (exp_sys b)) k with
+                    | Some _, Some _ => true | _, _ => false end) (range (N.of_nat k_max + 1)).
+
+Lemma exp_runs :
+  (sys_wf (exp_sys 3) = true /\ nodup_exprs (s_inputs (exp_sys 3)) = true /\ names_ok (enc_new (exp_sys 3) exp_nm) = true /\
+   exp_signals_ok 3 5 = true /\ exp_signals_ok 1 5 = true) /\
+  (forall ind, bmc_model_full unit (enum_solver unit) (exp_sys 3) exp_nm false ind 5 = FSuccess) /\
+  (forall ind, bmc_model_full unit (enum_solver unit) (exp_sys 3) exp_nm true ind 5 = FPanic) /\
+  (forall ind, bmc_model_full unit (enum_solver unit) (exp_sys 3) exp_nm true ind 1 = FSuccess) /\
+  (forall cc ind, exists w, bmc_model_full unit (enum_solver unit) (exp_sys 1) exp_nm cc ind 5 = FFail 1 w).
+Proof.
+  split; [vm_compute; repeat split; reflexivity|].
+  split; [intros [|]; vm_compute; reflexivity|].
+  split; [intros [|]; vm_compute; reflexivity|].
+  split; [intros [|]; vm_compute; reflexivity|].
+  intros [|] [|]; eexists; vm_compute; reflexivity.
+Qed.
+
+From Patronus Require Import BmcFullExact.
+Lemma enum_solver_total (EM : Type) : solver_total (enum_solver EM).
+Proof.
+  unfold enum_solver, lift_solver. split; [|split; [|split]]; cbn.
+  - intros sc a b. destruct (enum_model sc a b); discriminate.
+  - intros sc a b e. destruct (enum_model sc a b); discriminate.
+  - intros sc m s e. discriminate.
+  - reflexivity.
+Qed.
+
+Lemma enum_solver_sound_total (EM : Type) : solver_sound (enum_solver EM) /\ solver_total (enum_solver EM).
+Proof. split; [apply enum_solver_sound|apply enum_solver_total]. Qed.
